@@ -46,9 +46,10 @@ fn legal_sequences(m: usize) -> Vec<Vec<N>> {
     out
 }
 
-fn scenario(seq: &[N], on_disk: bool, pull: bool) -> Scenario {
+fn scenario(seq: &[N], on_disk: bool, pull: bool, late: bool) -> Scenario {
     let rel = if on_disk { "a.lua" } else { "n.lua" };
-    let mut s = Scenario::new(&format!("{}:{}:{}", if on_disk { "disk" } else { "nodisk" }, if pull { "pull" } else { "push" }, seq.iter().map(|n| format!("{n:?}")).collect::<Vec<_>>().join(",")));
+    let mut s = Scenario::new(&format!("{}:{}:{}{}", if on_disk { "disk" } else { "nodisk" }, if pull { "pull" } else { "push" }, seq.iter().map(|n| format!("{n:?}")).collect::<Vec<_>>().join(","), if late { ":last-arrives-late" } else { "" }));
+    s.late_messages = late as usize;
     s.disk = vec![("a.lua".into(), DISK_TEXT.into()), ("b.lua".into(), "local b = 1\n".into())];
     s.pull_diagnostics = pull;
     let mut version = 1;
@@ -126,7 +127,9 @@ pub fn run(args: &Args) -> ! {
         for seq in legal_sequences(4) {
             for on_disk in [true, false] {
                 for pull in [true, false] {
-                    all.push((scenario(&seq, on_disk, pull), Box::new(judge_for(seq.clone(), on_disk))));
+                    for late in [false, true] {
+                        all.push((scenario(&seq, on_disk, pull, late), Box::new(judge_for(seq.clone(), on_disk))));
+                    }
                 }
             }
         }
@@ -144,20 +147,25 @@ pub fn run(args: &Args) -> ! {
     'outer: for seq in &seqs {
         for on_disk in [true, false] {
             for &pull in &pulls {
-                if dl.expired() {
-                    complete = false;
-                    break 'outer;
+                for late in [false, true] {
+                    if late && seq.len() < 2 {
+                        continue;
+                    }
+                    if dl.expired() {
+                        complete = false;
+                        break 'outer;
+                    }
+                    let scn = scenario(seq, on_disk, pull, late);
+                    let judge = judge_for(seq.clone(), on_disk);
+                    scenarios += 1;
+                    let st = explore_scenario(args, &dl, &acc, &scn, bound, args.tier.pick(20_000, 400_000), &judge, "in-order");
+                    tot.add(&st);
                 }
-                let scn = scenario(seq, on_disk, pull);
-                let judge = judge_for(seq.clone(), on_disk);
-                scenarios += 1;
-                let st = explore_scenario(args, &dl, &acc, &scn, bound, args.tier.pick(20_000, 400_000), &judge, "in-order");
-                tot.add(&st);
             }
         }
     }
     rep.rule = format!(
-        "every protocol-legal sequence of ≤{m} notifications over {{open, change(t2), change(t3), close, save}} on an on-disk and a not-on-disk document ({} sequences × 2 documents × {} client kinds, {scenarios} scenarios run), pre-loaded into the real server loop; every schedule of the server's tasks (gates at lock acquisition and channel receive; timers as events) with at most {bound} preemptions, modulo happens-before state matching; oracle at quiescence: open set and analysed text are those of the last notification in message order. non-trivial = execution with more than one decision; executions are distinct schedules by construction",
+        "every protocol-legal sequence of ≤{m} notifications over {{open, change(t2), change(t3), close, save}} on an on-disk and a not-on-disk document ({} sequences × 2 documents × {} client kinds, {scenarios} scenarios run), pre-loaded into the real server loop, and once more with the last notification arriving late as a scheduler event; every schedule of the server's tasks (gates at lock acquisition and channel receive; timers as events) with at most {bound} preemptions, modulo happens-before state matching; oracle at quiescence: open set and analysed text are those of the last notification in message order. non-trivial = execution with more than one decision; executions are distinct schedules by construction",
         seqs.len(),
         pulls.len()
     );
